@@ -1,7 +1,7 @@
 From Coq Require Import ZArith List Bool QArith Qround.
 Import ListNotations.
-From GV Require Import Common.PyInt C10.Model C10.Lemmas.
-From GV Require C20.Model.
+From GV Require Import Common.PyInt gen.Gen_array C10.Model C10.Lemmas C10.Discharge.
+From GV Require C20.Model C20.OdometerProof.
 Open Scope Z_scope.
 
 (* Each selected finite value inside the closed range is counted in exactly one bin (the equal-width
@@ -107,3 +107,37 @@ Theorem chunking_hypotheses_hold_for_m_chunks :
     forall j, 0 <= j < nth ai shape 0 -> covered ai (C20.Model.m_chunks shape (cs_of shape ai c)) j.
 Proof. exact Lemmas.chunking_hypotheses_hold_for_m_chunks. Qed.
 Print Assumptions chunking_hypotheses_hold_for_m_chunks.
+
+(* ... and for the machine-translated generator itself (Gen_array.iterate_chunks, any fuel >= fuel_for shape): it returns
+   a chunk list (equal to m_chunks by C20.OdometerProof.iterate_chunks_is_product_fuel, proved over the translated code)
+   on which the chunk loop produces element by element the unchunked textbook value.  The chunk length must fit the
+   kept axis (c <= shape[ai]); cs_of does not clamp, and the code's own chunk length fits (next theorem). *)
+Theorem chunking_irrelevant_translated :
+  forall (A res : Type) (R : list A -> res) (nan zero : res), R [] = nan ->
+  forall shape (a : idx -> A) filt (m : option (idx -> bool)) (ai : nat) (c : Z) (fuel : nat),
+    Forall (fun n => 0 < n) shape -> (ai < length shape)%nat ->
+    0 < c -> c <= nth ai shape 0 ->
+    (C20.Model.fuel_for shape <= fuel)%nat ->
+    exists chunks,
+      iterate_chunks fuel shape (Some (cs_of shape ai c)) None = Ok chunks /\
+      forall k, 0 <= k < nth ai shape 0 ->
+        nth (Z.to_nat k) (chunk_loop A res R nan zero shape a filt m (red_axis (length shape) ai) (Z.of_nat ai) chunks) nan
+        = R (map a (filter (fun c => mask_fun m c && filt (a c)) (lanep (view_pos shape []) (red_axis (length shape) ai) [k]))).
+Proof. exact Discharge.chunking_irrelevant_translated. Qed.
+Print Assumptions chunking_irrelevant_translated.
+
+(* ... with the chunk shape exactly as compute_statistic builds it: chunk_shape[ai] = chunk_len = max(1, shape[ai] *
+   n_chunk_max // prod(shape)), which fits because the chunked branch is taken only when prod(shape) > n_chunk_max. *)
+Theorem chunking_irrelevant_translated_chunk_len :
+  forall (A res : Type) (R : list A -> res) (nan zero : res), R [] = nan ->
+  forall shape (a : idx -> A) filt (m : option (idx -> bool)) (ai : nat) (ncm : Z) (fuel : nat),
+    Forall (fun n => 0 < n) shape -> (ai < length shape)%nat ->
+    zprod shape > ncm ->
+    (C20.Model.fuel_for shape <= fuel)%nat ->
+    exists chunks,
+      iterate_chunks fuel shape (Some (zupd shape (Z.of_nat ai) (chunk_len shape (Z.of_nat ai) ncm))) None = Ok chunks /\
+      forall k, 0 <= k < nth ai shape 0 ->
+        nth (Z.to_nat k) (chunk_loop A res R nan zero shape a filt m (red_axis (length shape) ai) (Z.of_nat ai) chunks) nan
+        = R (map a (filter (fun c => mask_fun m c && filt (a c)) (lanep (view_pos shape []) (red_axis (length shape) ai) [k]))).
+Proof. exact Discharge.chunking_irrelevant_translated_chunk_len. Qed.
+Print Assumptions chunking_irrelevant_translated_chunk_len.
